@@ -232,8 +232,7 @@ Definition is_b64 (q : Q) : bool :=
 (** * strconv.FormatFloat(x, 'f', -1, 64): the decimal with the fewest significant digits
     that ParseFloat reads back as x; among those of that length the closest to x (ties:
     even last digit).  Stated with [round64_pos]: for p = 1, 2, ... 17 significant digits
-    the two p-digit neighbours of x (truncation, and truncation + one unit) are tried.
-    A value that is not a binary64 number (no candidate reads back) is printed exactly. *)
+    the two p-digit neighbours of x (truncation, and truncation + one unit) are tried. *)
 
 (** 10^k <= n/d *)
 Definition pow10_le (k n d : Z) : bool :=
@@ -258,38 +257,83 @@ Definition log10_floor (n d : Z) : Z :=
 Definition dec_value (l j : Z) : Q :=
   if 0 <=? j then inject_Z (l * 10 ^ j) else Qmake l (Z.to_pos (10 ^ (- j))).
 
-Definition reads_back (v : Q) (n d : Z) : bool :=
-  match round64_pos (Qnum v) (Zpos (Qden v)) with
+(** ** printing a digit string with a decimal exponent (strconv's %f layout, fmtF) *)
+
+(** the k low decimal digits of z, most significant first, in front of acc *)
+Fixpoint pd (k : nat) (z : Z) (acc : string) : string :=
+  match k with
+  | O => acc
+  | S k' => pd k' (z / 10) (String (digit_char (z mod 10)) acc)
+  end.
+
+(** number of decimal digits of z > 0 *)
+Fixpoint ndig_aux (fuel : nat) (z : Z) : nat :=
+  match fuel with
+  | O => O
+  | S f => if z =? 0 then O else S (ndig_aux f (z / 10))
+  end.
+Definition ndig (z : Z) : nat := ndig_aux (S (Z.to_nat (Z.log2 z))) z.
+
+(** text of  l * 10^j,  l > 0: the digits of l followed by j zeros, or with the point
+    -j digits from the right ("0." and leading zeros when l has no more than -j digits) *)
+Definition fmt_digits (l j : Z) : string :=
+  if 0 <=? j then pd (ndig l) l (pd (Z.to_nat j) 0 "")
+  else
+    let f := Z.to_nat (- j) in
+    let ip := l / 10 ^ Z.of_nat f in
+    let tail := String "." (pd f l "") in
+    if ip =? 0 then String "0" tail else pd (ndig ip) ip tail.
+
+(** what ParseFloat makes of that text (see [classify]/[scaled_value]) *)
+Definition dec_round (l j : Z) : option Q :=
+  if 0 <=? j then round64_pos (l * 10 ^ j) 1 else round64_pos l (10 ^ (- j)).
+
+Definition reads (l j n d : Z) : bool :=
+  match dec_round l j with
   | Some r => Qeq_bool r (Qmake n (Z.to_pos d))
   | None => false
   end.
 
-(** shortest candidate with p..17 digits for n/d > 0, k = floor(log10(n/d)) *)
-Fixpoint shortest_from (fuel : nat) (p : Z) (k n d : Z) : option Q :=
+(** digit strings do not end in 0: 50 * 10^-2 is 5 * 10^-1 *)
+Fixpoint strip10 (fuel : nat) (l j : Z) : Z * Z :=
+  match fuel with
+  | O => (l, j)
+  | S f => if (0 <? l) && (l mod 10 =? 0) then strip10 f (l / 10) (j + 1) else (l, j)
+  end.
+
+(** shortest candidate (digits, exponent) with p..17 digits for n/d > 0,
+    k = floor(log10(n/d)) *)
+Fixpoint shortest_from (fuel : nat) (p : Z) (k n d : Z) : option (Z * Z) :=
   match fuel with
   | O => None
   | S f =>
     let j := k - p + 1 in                       (* weight of the last digit *)
     (* l = floor((n/d) / 10^j) *)
     let l := if 0 <=? j then n / (d * 10 ^ j) else (n * 10 ^ (- j)) / d in
-    let lo := dec_value l j in
-    let hi := dec_value (l + 1) j in
-    let in_lo := (0 <? l) && reads_back lo n d in
-    let in_hi := reads_back hi n d in
+    let '(l1, j1) := strip10 20 l j in
+    let '(l2, j2) := strip10 20 (l + 1) j in
+    let in_lo := (0 <? l1) && reads l1 j1 n d in
+    let in_hi := (0 <? l2) && reads l2 j2 n d in
     if in_lo && in_hi then
-      (* both read back: the nearer one; twice the distance to lo against one unit *)
+      (* both read back: the nearer one *)
       let x := Qmake n (Z.to_pos d) in
-      let dlo := Qminus x lo in
-      let dhi := Qminus hi x in
+      let dlo := Qminus x (dec_value l j) in
+      let dhi := Qminus (dec_value (l + 1) j) x in
       match Qcompare dlo dhi with
-      | Lt => Some lo
-      | Gt => Some hi
-      | Eq => if Z.even l then Some lo else Some hi
+      | Lt => Some (l1, j1)
+      | Gt => Some (l2, j2)
+      | Eq => if Z.even l then Some (l1, j1) else Some (l2, j2)
       end
-    else if in_lo then Some lo
-    else if in_hi then Some hi
+    else if in_lo then Some (l1, j1)
+    else if in_hi then Some (l2, j2)
     else shortest_from f (p + 1) k n d
   end.
+
+(** when no candidate reads back (never for a binary64 value, as far as the tests go): the
+    exact expansion of a dyadic n/2^t, else 20 decimals *)
+Definition exact_pair (n d : Z) : Z * Z :=
+  let t := Z.log2 d in
+  if d =? 2 ^ t then (n * 5 ^ t, - t) else ((n * 10 ^ 20) / d, -20).
 
 Definition fmt_go (q : Q) : string :=
   let q' := Qred q in
@@ -298,10 +342,12 @@ Definition fmt_go (q : Q) : string :=
   if n =? 0 then "0"
   else
     let a := Z.abs n in
-    match shortest_from 17 1 (log10_floor a d) a d with
-    | Some v => let sign : string := if n <? 0 then "-" else "" in (sign ++ fmt_dec v)%string
-    | None => fmt_dec q'
-    end.
+    let '(l, j) := match shortest_from 17 1 (log10_floor a d) a d with
+                   | Some p => p
+                   | None => exact_pair a d
+                   end in
+    let sign : string := if n <? 0 then "-" else "" in
+    (sign ++ fmt_digits l j)%string.
 
 (** x is a number of this model of strconv: its text is a clean token (non-empty, no
     metacharacter, blank or '/') that reads back as x *)
